@@ -22,7 +22,7 @@ NatDigits(n) == IF n < 10 THEN <<n>> ELSE NatDigits(n \div 10) \o <<n % 10>>
 DigitChars(ds) == [i \in 1..Len(ds) |-> cZero + ds[i]]
 NatText(n) == DigitChars(NatDigits(n))
 IntText(n) == IF n < 0 THEN <<cMinus>> \o NatText(-n) ELSE NatText(n)
-Zeros(k) == [i \in 1..k |-> 0]
+Zeros(k) == IF k <= 0 THEN <<>> ELSE [i \in 1..k |-> 0]
 \* n >= 0 as exactly w digits (zero padded)
 PadNat(n, w) == LET ds == NatDigits(n) IN DigitChars(Zeros(w - Len(ds)) \o ds)
 
